@@ -1,67 +1,22 @@
 /*@harness
-{"tier":"quick","mode":"bounded(one dispatch of F_INDEX / F_RINDEX; containers: string of at most 3 characters, buffer and array of at most 3 elements; every 64-bit index; index operand a number or a string)","tus":["src/interpret.c"],"dfcc":false,
- "functions":["eval_instruction"],
- "flags":["--bounds-check","--pointer-check","--no-malloc-may-fail","--object-bits","10"],"reachability":true,"unwind":6,"timeout":900,
- "expect":["eval_instruction.pointer_dereference","h_op_index.assertion"],
+{"tier":"quick","mode":"bounded(the case F_INDEX / F_RINDEX blocks; containers: string of at most 3 characters, array of at most 3 elements; every 64-bit index; index operand a number or a string)","tus":["src/interpret.c"],"dfcc":false,
+ "functions":["v_case_index","v_case_rindex"],
+ "flags":["--bounds-check","--pointer-check","--no-malloc-may-fail","--object-bits","10"],"unwind":6,"timeout":900,
+ "expect":["v_case_index.pointer_dereference","v_case_rindex.pointer_dereference","h_op_index.assertion"],
  "ignore":[{"class":"array_bounds","text_contains":"->item[","why":"struct-hack member item[1]: the declared bound is 1 while the block is allocated for n elements; the object-bounds check of the same access (pointer_dereference / the r_ok assertion in the assign stub) is the obligation"},
            {"class":"overflow","text_contains":"u.number","why":"integer wrap / narrowing in ISO C terms, not a memory-safety clause of C01"}],
  "native":{"inject":true},
- "assumptions":["one instruction is dispatched (ghost step counter injected at the head of the dispatch loop)",
+ "assumptions":["the case F_INDEX / case F_RINDEX blocks of eval_instruction are extracted mechanically on every run (the lines between the two case labels, byte for byte, wrapped in a one-case switch inside a new function); dropped: the dispatch loop (opcode fetch, eval_cost accounting) and every other case",
                 "buffers and arrays are heap blocks of exactly the size allocate_buffer / allocate_array request (sizeof(header) + n - 1 elements)",
                 "free_* and error() are stubs; mapping containers are not generated here"],
  "notes":"C01 for x[i] and x[<i]: every access of the real case F_INDEX / F_RINDEX code stays inside the indexed value for every index"}
 @*/
-/*@inject file=src/interpret.c function=eval_instruction at=before match="instruction = EXTRACT_UCHAR (pc++);"
-      { extern int G_steps, G_max_steps; if (G_steps++ >= G_max_steps) return; }
+/*@extract file=src/interpret.c function=eval_instruction from="case F_INDEX:" to="case F_RINDEX:" name=v_case_index
+  int i = 0, n = 0; double real = 0; svalue_t *lval = 0; int instruction = F_INDEX; unsigned short offset = 0;
 @*/
-#define VM_HAVE_BUFFER
-#define VM_HAVE_ARRAY
-#include "c01_vm.h"
-#include "efuns_opcode.h"
-int64_t eval_cost;
-void eval_instruction(const char *p);
-static int G_freed;
-buffer_t *allocate_buffer(size_t n) { V_UNREACHABLE_STUB("allocate_buffer"); V_STOP(); return 0; }
-void free_buffer(buffer_t *b) { G_freed++; }
-void free_array(array_t *a) { G_freed++; }
-array_t *add_array(array_t *a, array_t *b) { V_UNREACHABLE_STUB("add_array"); V_STOP(); return 0; }
-void free_object(object_t *o, const char *why) { }
-
-void h_op_index(void) {
-  static char prog[2];
-  V_FILL(main_options_t, G_opts, opts);
-  vm_init();
-  eval_cost = 1000;
-  V_DECL(int, rev); V_DECL(int, kind); V_DECL(int, n); V_DECL(int, idx_is_string);
-  V_ASSUME(0 <= n && n <= 3 && 0 <= kind && kind <= 2);
-  /* index operand */
-  if (idx_is_string) vm_string(1, &G_stk[4], 1, STRING_CONSTANT);
-  else { V_DECL(int64_t, idx); G_stk[4].type = T_NUMBER; G_stk[4].subtype = 0; G_stk[4].u.number = idx; }
-  /* container operand */
-  if (kind == 0) {
-    V_DECL(int, sub); V_ASSUME(sub == STRING_MALLOC || sub == STRING_SHARED || sub == STRING_CONSTANT);
-    vm_string(0, &G_stk[5], n, sub);
-  } else if (kind == 1) {
-    /* as allocate_buffer: calloc(sizeof(buffer_t) + n - 1); the empty buffer is the static null_buffer */
-    /* (one malloc of concrete size per n: blocks of symbolic size cost minutes of propositional conversion) */
-    buffer_t *b = n <= 1 ? (buffer_t *)malloc(sizeof(buffer_t)) : n == 2 ? (buffer_t *)malloc(sizeof(buffer_t) + 1) : (buffer_t *)malloc(sizeof(buffer_t) + 2);
-    V_ASSUME(b != 0);
-    b->ref = 1; b->size = (unsigned)n;
-    G_stk[5].type = T_BUFFER; G_stk[5].subtype = 0; G_stk[5].u.buf = b;
-  } else {
-    /* as allocate_array: sizeof(array_t) + sizeof(svalue_t) * (n - 1); the empty array is the static the_null_array */
-    array_t *a = n <= 1 ? (array_t *)malloc(sizeof(array_t)) : n == 2 ? (array_t *)malloc(sizeof(array_t) + sizeof(svalue_t)) : (array_t *)malloc(sizeof(array_t) + 2 * sizeof(svalue_t));
-    V_ASSUME(a != 0);
-    a->ref = 1; a->size = (unsigned short)n;
-    for (int i = 0; i < 3; i++) if (i < n) { a->item[i].type = T_NUMBER; a->item[i].subtype = 0; a->item[i].u.number = i; }
-    G_stk[5].type = T_ARRAY; G_stk[5].subtype = 0; G_stk[5].u.arr = a;
-  }
-  sp = &G_stk[5];
-  V_COVER(kind == 1 && n == 2 && !idx_is_string);
-  /* the opcode byte must be a constant on each path: with a symbolic opcode symex explores every case of the switch */
-  if (rev) { prog[0] = (char)F_RINDEX; eval_instruction(prog); } else { prog[0] = (char)F_INDEX; eval_instruction(prog); }
-  /* reaching here: a value was produced */
-  V_ASSERT(sp == &G_stk[4], "x[i] leaves one value on the stack");
-  V_ASSERT(!idx_is_string, "a non-integer index raises an error");
-  V_COVER(kind == 2 && n == 3);
-}
+/*@extract file=src/interpret.c function=eval_instruction from="case F_RINDEX:" to="#ifdef F_JUMP_WHEN_ZERO" name=v_case_rindex
+  int i = 0, n = 0; double real = 0; svalue_t *lval = 0; int instruction = F_RINDEX; unsigned short offset = 0;
+@*/
+#define IX_KINDS(k) ((k) == 0 || (k) == 2)
+#define IX_ENTRY h_op_index
+#include "c01_index.h"
